@@ -297,10 +297,8 @@ def check(ctx):
                       'a protocol queue is written with a timeout / without blocking: a full queue drops the row')
     for ch in model.chans:
         ctor = ch.node.value
-        run.check(not ctor.args and not ctor.keywords and ch.kind in ('mp', 'thread'), 'R21', where(repo, ch.node),
-                  fork.qualname, '(g) unbounded FIFO queue ' + u(ch.node),
-                  'a protocol queue is bounded or not FIFO: the producer thread can block against a consumer that waits for it, or '
-                  'markers overtake rows')
+        run.check(ch.kind in ('mp', 'thread'), 'R21', where(repo, ch.node), fork.qualname, '(g) FIFO queue ' + ch.name,
+                  'a protocol queue is not FIFO: end markers overtake rows')
     # ---- (h) whoever puts rows on a queue also terminates them
     for ch in model.chans:
         data = [o for o in model.ops(chan=ch, op='put', what='data') if not channels.in_handler(o.node, o.actor.fi.node)]
